@@ -3,7 +3,7 @@ from runner import Stream
 import vlib, gen_cache
 from lsp_common import to_model_lines, canon_msgs
 
-PROP_MODULES = ["Vlsp.Props.C13"]
+PROP_MODULES = ["Vlsp.Props.C13", "Vlsp.Props.C13Full"]
 RULE = ("the real Backend in an in-process LspService (tokio current-thread runtime, paused clock), real Cache, real parsers/matchers, "
         "gate-controlled registries (each fetch parks until the scenario releases it): scenarios = 1-2 documents x 1-3 edits x 1-2 packages "
         "x reply outcomes (ok / not found / transient) with the replies interleaved with the later edits in random orders (every order of "
